@@ -695,6 +695,96 @@ func (r *runner) judge(k kase, prevCrash int, sample bool) {
 	c.Violation("reload", k.String()+" #"+v.label, v.detail)
 }
 
+
+// ---- two live sessions -----------------------------------------------------------------------------
+// Session A has recorded a1 and stays open; session B opens the same file and records b, crashing after k
+// bytes of that write (or completing it); A, still running, then records a2; a later session reloads.
+// A's entries were written before and after the crash: both must read back, and b too when it completed.
+
+type liveCase struct {
+	a1, b, a2 int
+	crash     int // -1: B's write completes
+}
+
+func (l liveCase) String() string {
+	cr := "@end"
+	if l.crash >= 0 {
+		cr = "@" + strconv.Itoa(l.crash)
+	}
+	return fmt.Sprintf("LIVE A:%s B:%s %s A:%s", blocks[l.a1].name, blocks[l.b].name, cr, blocks[l.a2].name)
+}
+
+// evalLive returns (violates, detail, length of B's write).
+func (r *runner) evalLive(l liveCase) (bool, string, int) {
+	os.Remove(r.file)
+	hA, _ := history.New(r.file)
+	if _, err := hA.Write(blocks[l.a1].text); err != nil {
+		r.harness("Write failed: %v", err)
+	}
+	st, _ := os.Stat(r.file)
+	pre := int(st.Size())
+	hB, _ := history.New(r.file)
+	if _, err := hB.Write(blocks[l.b].text); err != nil {
+		r.harness("Write failed: %v", err)
+	}
+	st, _ = os.Stat(r.file)
+	wlen := int(st.Size()) - pre
+	cut := l.crash >= 0 && l.crash < wlen
+	if cut {
+		if err := os.Truncate(r.file, int64(pre+l.crash)); err != nil {
+			r.harness("truncate: %v", err)
+		}
+	}
+	if _, err := hA.Write(blocks[l.a2].text); err != nil {
+		r.harness("Write failed: %v", err)
+	}
+	got := collapse(reload(r.file))
+	with := collapse([]string{blocks[l.a1].text, blocks[l.b].text, blocks[l.a2].text})
+	without := collapse([]string{blocks[l.a1].text, blocks[l.a2].text})
+	same := func(x, y []string) bool { return strings.Join(x, "\x00") == strings.Join(y, "\x00") && len(x) == len(y) }
+	if same(got, with) || (cut && same(got, without)) {
+		return false, "", wlen
+	}
+	return true, fmt.Sprintf("reload gives %d entries %s, expected A's two entries with%s B's between them (B's write %d bytes, cut after %d)", len(got), clipList(got), map[bool]string{true: " or without", false: ""}[cut], wlen, l.crash), wlen
+}
+
+func clipList(l []string) string {
+	var out []string
+	for _, s := range l {
+		out = append(out, strconv.Quote(vlib.Clip(s, 24)))
+	}
+	return "[" + strings.Join(out, " ") + "]"
+}
+
+func (r *runner) runLive(quick bool) {
+	c := r.c
+	smalls := []int{0, 2} // a, ml
+	bs := []int{1, 3}     // ab, uq
+	if !quick {
+		bs = append(bs, 4) // L70k
+	}
+	for _, a1 := range smalls {
+		for _, b := range bs {
+			for _, a2 := range smalls {
+				if !c.Next() {
+					continue
+				}
+				_, _, wlen := r.evalLive(liveCase{a1, b, a2, -1})
+				for _, p := range append([]int{-1}, crashPoints(wlen, quick)...) {
+					l := liveCase{a1, b, a2, p}
+					bad, detail, _ := r.evalLive(l)
+					outcome := "live sessions: ok"
+					if bad {
+						outcome = "live sessions: VIOLATION"
+						c.Violation("reload", l.String()+" #lost:live-session", detail)
+					}
+					c.Eval(p > 0 && p < wlen, outcome)
+				}
+			}
+		}
+	}
+}
+
 func run(c *vlib.Ctx) {
 	r := setup(c)
 	b := getBounds(c.Quick())
@@ -720,11 +810,28 @@ func run(c *vlib.Ctx) {
 		return true
 	})
 	c.Extra("histories (this is the unit of sharding)", int64(n))
+	r.runLive(c.Quick())
 }
 
 func replay(c *vlib.Ctx, w string) {
 	if i := strings.Index(w, " #"); i >= 0 {
 		w = w[:i]
+	}
+	if strings.HasPrefix(w, "LIVE ") {
+		r := setup(c)
+		var a1, b, a2, cr string
+		if n, _ := fmt.Sscanf(w, "LIVE A:%s B:%s %s A:%s", &a1, &b, &cr, &a2); n != 4 {
+			fmt.Println("cannot parse witness", w)
+			return
+		}
+		l := liveCase{blockIdx(a1), blockIdx(b), blockIdx(a2), -1}
+		if cr != "@end" {
+			l.crash, _ = strconv.Atoi(cr[1:])
+		}
+		if bad, detail, _ := r.evalLive(l); bad {
+			c.Violation("reload", l.String()+" #lost:live-session", detail)
+		}
+		return
 	}
 	k, ok := parseKase(w)
 	if !ok {
@@ -737,10 +844,18 @@ func replay(c *vlib.Ctx, w string) {
 	}
 }
 
+// RuleText, Run, Replay and Assumptions are also used by the combined C29 check in echecks/histconc (which adds
+// the interleaving part under the controlled scheduler).
+var RuleText = "histories = every sequence of 1..n commands over the block alphabet {a, 'a b', two-line, unicode+quote+backslash, 70 KiB line, 70 KiB of '<&>\\n' (about 350 KiB once encoded in the file); thorough adds a 200 KiB line} cut in every way into <= s sessions (quick n=3 s=2, thorough n=4 s=3; sequences containing an entry > 64 KiB only up to n-1 commands), written by the real history.New/History.Write; the file is then truncated at every byte offset of the last write (entries >= 4 KiB: thorough the first and last 256 offsets and every 4096-byte boundary +-2; quick the first and last 16 offsets and the first two, last two and 60-68 KiB boundaries +-1) or left complete, one further session appends every sequence of <= 2 commands over {a, two-line} (thorough also the 70 KiB line), and a final session reloads; PLUS two live sessions: A records a1 and stays open, B opens the file and records b cut at every crash point (or complete), A then records a2, a later session reloads (A's entries, written before and after the crash, must both read back); oracle: reload with consecutive duplicates collapsed = acknowledged commands (with or, if the write was cut, without the cut one); non-trivial = the cut is strictly inside the write, or the history contains a consecutive duplicate or an entry longer than 64 KiB; each violation is labelled with the roles of the lost entries (before = acknowledged before the cut write, last = the completed last write, after1/after2 = first/later entry of the next session; the label is appended to the witness after '#'), and a violating case is listed only when none of its one-step reductions (no crash, previous offset, drop a command, merge sessions, simpler block) violates with the same label"
+
+func Run(c *vlib.Ctx)              { run(c) }
+func Setup(c *vlib.Ctx)            { setup(c) }
+func Replay(c *vlib.Ctx, w string) { replay(c, w) }
+
 func init() {
 	vlib.Register(&vlib.Check{
 		ID: "C29", Engine: "E4",
-		Rule:   "histories = every sequence of 1..n commands over the block alphabet {a, 'a b', two-line, unicode+quote+backslash, 70 KiB line, 70 KiB of '<&>\\n' (about 350 KiB once encoded in the file); thorough adds a 200 KiB line} cut in every way into <= s sessions (quick n=3 s=2, thorough n=4 s=3; sequences containing an entry > 64 KiB only up to n-1 commands), written by the real history.New/History.Write; the file is then truncated at every byte offset of the last write (entries >= 4 KiB: thorough the first and last 256 offsets and every 4096-byte boundary +-2; quick the first and last 16 offsets and the first two, last two and 60-68 KiB boundaries +-1) or left complete, one further session appends every sequence of <= 2 commands over {a, two-line} (thorough also the 70 KiB line), and a final session reloads; oracle: reload with consecutive duplicates collapsed = acknowledged commands (with or, if the write was cut, without the cut one); non-trivial = the cut is strictly inside the write, or the history contains a consecutive duplicate or an entry longer than 64 KiB; each violation is labelled with the roles of the lost entries (before = acknowledged before the cut write, last = the completed last write, after1/after2 = first/later entry of the next session; the label is appended to the witness after '#'), and a violating case is listed only when none of its one-step reductions (no crash, previous offset, drop a command, merge sessions, simpler block) violates with the same label",
+		Rule:   RuleText,
 		Run:    run,
 		Replay: replay,
 		Assumptions: []string{
